@@ -19,6 +19,7 @@ type Case struct {
 	Mode     string         `json:"mode"`              // emu | timing
 	GPUType  string         `json:"gpu_type,omitempty"`
 	Knobs    Knobs          `json:"knobs,omitempty"`
+	Parallel bool           `json:"parallel,omitempty"` // akita ParallelEngine instead of the serial engine (what the runner's -parallel does)
 
 	// what the worker has to hand back besides the verdict
 	WantOutputs  bool `json:"want_outputs,omitempty"` // the workload's output buffers
@@ -61,14 +62,18 @@ func (c Case) GPUSet() string {
 
 // Platform renders the mode: emu, timing-r9nano, timing-mi300a[+knobs].
 func (c Case) Platform() string {
+	par := ""
+	if c.Parallel {
+		par = "+parallel"
+	}
 	if c.Mode == "emu" {
-		return "emu"
+		return "emu" + par
 	}
 	s := "timing-" + c.GPUType
 	if c.Knobs != (Knobs{}) {
 		s += "[" + c.Knobs.String() + "]"
 	}
-	return s
+	return s + par
 }
 
 // Name is the canonical, unique name of the lattice point.
@@ -136,4 +141,5 @@ type Outcome struct {
 	WallS    float64
 	Res      *Result
 	Reruns   int
+	Races    string // the worker's "WARNING: DATA RACE" blocks (binaries built with -race only)
 }
